@@ -38,7 +38,22 @@ HERE = os.path.dirname(os.path.abspath(__file__))
 if HERE not in sys.path:
     sys.path.insert(0, HERE)
 import common  # noqa: E402
-from translate import TranslateError, HEADER, lean_str  # noqa: E402
+
+
+# translate.py is imported lazily: it may itself import this module to register the generator.
+def _translate():
+    import translate
+    return translate
+
+
+def TranslateError(msg):
+    """An instance of translate.TranslateError (`raise TranslateError("...")` works as usual)."""
+    return _translate().TranslateError(msg)
+
+
+def lean_str(text):
+    return _translate().lean_str(text)
+
 
 CLASSES = ["TimeRecurrence", "Duration", "TimeZone", "TimePoint"]
 EXT = 0   # table index of the client-code pseudo-method
@@ -1246,7 +1261,7 @@ ASSUMPTIONS = [
 
 
 def render(an):
-    out = [HEADER.replace("harness/translate.py", "harness/gen_effects.py"),
+    out = [_translate().HEADER.replace("harness/translate.py", "harness/gen_effects.py"),
            "import IsoDT.Model.Effects", "", "namespace IsoDT.Gen.Effects",
            "open IsoDT.Model.Effects", ""]
     out.append("/-! Effect IR of `metomi/isodatetime/data.py`.  Variable 0 is `self`.  "
@@ -1315,7 +1330,7 @@ def summaries(path=None):
 def main(argv):
     try:
         text = gen_effects()
-    except TranslateError as exc:
+    except _translate().TranslateError as exc:
         print("TRANSLATE-FAIL Effects: %s" % exc)
         return 3
     path = os.path.join(common.GEN_DIR, "Effects.lean")
